@@ -47,7 +47,8 @@ TIME_OPTS = {1, 2, 8, 13}
 
 def ob(name, entry, desc, defines=(), unwind=8, unwindset=(), timeout=600, mem_gb=4, **kw):
     d = dict(name=name, harness="C39_conf.c", entry=entry, desc=desc, defines=list(defines), unwind=unwind,
-             unwindset=list(unwindset), cbmc=list(CHK) + list(kw.pop("cbmc", [])), timeout=timeout, mem_gb=mem_gb)
+             unwindset=list(unwindset) + ["vpd_memset.0:130", "vpd_memcpy.0:130", "vpe_memcpy.0:130", "vpd_calloc.0:15", "evdns_base_set_max_requests_inflight.4:15"],
+             cbmc=list(CHK) + ["--object-bits", "10"] + list(kw.pop("cbmc", [])), timeout=timeout, mem_gb=mem_gb)
     d.update(kw)
     return d
 
@@ -99,7 +100,7 @@ def opt_obs(tier):
 
 def line_obs(tier):
     N = 14 if tier == "quick" else 16
-    H = 12 if tier == "quick" else 14
+    H = 8 if tier == "quick" else 12
     F = 6 if tier == "quick" else 8
     rc = [["--replace-calls", "evdns_base_set_option_impl:c39_opt_recorder"]]
     o = []
